@@ -73,7 +73,7 @@ REQUIRED = dict(
     monitors=[M_X_SUB, M_X_NODE, M_X_FMT, M_X_GRID, M_X_NAME, M_X_UNIT, M_C_NODE, M_C_FMT, M_C_GRID, M_C_NAME, M_K_NODE, M_K_FMT,
               M_K_GRID, M_K_NAME, M_H_ONCE, M_H_PATH, M_H_VAL, M_H_INTERP, M_HK_INTERP, M_CIA_FIRST],
     classes=['xsec:pickle', 'xsec:hdf5', 'xsec:exotransmit', 'unit:Pa', 'unit:bar', 'unit:mbar', 'unit:Ba',
-             'unit:cds-only', 'cia:pickle', 'cia:hitran', 'hitran:per-temperature-ranges', 'hitran:negative-floored',
+             'unit:cds-only', 'cia:pickle', 'cia:hitran', 'hitran:per-temperature-ranges', 'hitran:negative-floored', 'hitran:whole-block-negative-below-an-interpolated-temperature',
              'hitran:ranges-share-a-wavenumber', 'query:work-array-refilled-in-place',
              'ktab:pickle', 'ktab:hdf5', 'name:isotopologue', 'name:suffix', 'query:node', 'query:interior',
              'query:outside', 'query:wngrid', 'interp:linear', 'interp:exp', 'hist:xsec', 'hist:cia', 'hist:ktab',
@@ -513,9 +513,20 @@ def _close(ctx, monitor, got, want, cornermax, exo=False, **w):
 
 
 # -------------------------------------------------------------- CIA formats
-def draw_cia(rng, negatives):
-    blocks, exp = L.cia_physical_table(rng)
+def draw_cia(rng, negatives, whole_block=False):
+    blocks, exp = L.cia_physical_table(rng, interior_gap=whole_block)
     neg = {}
+    if whole_block:
+        # a deliberate class: EVERY entry of one block is negative (the whole block is floored to zero), and the block
+        # is the lower neighbour of a temperature its range lacks - the row the reader interpolates there is half the
+        # upper neighbour's, not zero
+        own = sorted(t for gi, wn, t, sig in blocks if gi == exp['gapped'])
+        missing = [t for t in exp['T'] if own[0] < t < own[-1] and float(t) not in own][0]
+        below = max(t for t in own if t < missing)
+        for bi, (gi, wn, t, sig) in enumerate(blocks):
+            if gi == exp['gapped'] and t == below:
+                for k in range(len(wn)):
+                    neg[(bi, k)] = float(sig[k])
     if negatives:
         # entries the HITRAN text carries as negative numbers are zero in the physical table; the rows the reader
         # interpolates are derived from the floored values, so rebuild the expectation from floored blocks
@@ -523,6 +534,7 @@ def draw_cia(rng, negatives):
             for k in range(len(wn)):
                 if rng.random() < 0.15:
                     neg[(bi, k)] = float(sig[k])          # written as -|value|: a realistic magnitude
+    if neg:
         blocks, exp = _refloor(blocks, exp, neg)
     return blocks, exp, neg
 
@@ -600,7 +612,10 @@ def wl_cia(ctx, rng):
     root = begin(ctx)
     try:
         negatives = bool(rng.random() < 0.35)
-        blocks, exp, neg = draw_cia(rng, negatives)
+        whole_block = ctx.case['index'] % 4 == 2
+        blocks, exp, neg = draw_cia(rng, negatives, whole_block)
+        if whole_block:
+            ctx.observe('hitran:whole-block-negative-below-an-interpolated-temperature')
         if rng.random() < 0.5:
             order = rng.permutation(len(blocks))         # block order in the file is free
             remap = {int(o): n for n, o in enumerate(order)}
